@@ -15,7 +15,7 @@ from hexital.analysis import MOVEMENT_MAP, PATTERN_MAP
 from .. import planlib, world
 from ..catalogue import MOVEMENTS, PATTERNS, PRICE_FIELDS, build, mk_candles, sample_analysis
 from ..core import Discard, LibError, Violation, run_property
-from ..util import freeze, sub_rng
+from ..util import freeze, secs, sub_rng
 
 ID = "C16"
 LEVEL = "exploration"
@@ -35,7 +35,9 @@ HELPERS = [
     {"cls": "Supertrend", "params": {"period": 3, "multiplier": 1.0}, "common": {}},
 ]
 HELPER_NAMES = ["EMA_3", "SMA_5", "MACD_2_4_2.MACD", "MACD_2_4_2.signal", "BBANDS_4.BBM", "BBANDS_4.BBU",
-                "Supertrend_3.long", "Supertrend_3.short", "Supertrend_3.long"]
+                "Supertrend_3.long", "Supertrend_3.short", "Supertrend_3.long",
+                # helper series kept in candle.sub_indicators
+                "MACD_2_4_2_EMA_fast", "BBANDS_4_SMA", "Supertrend_3_atr", "Supertrend_3_atr_TR"]
 MISSING = "no_such_reading"
 
 
@@ -177,6 +179,19 @@ def execute(trace, ctx=None):
                     if j < n - 1:
                         later_checked += 1
                 run.observe(kind, [freeze(ledger.get(j)) for j in idxs])
+                # observation 3: the next candle has ARRIVED but nothing has been calculated on it yet (the
+                # state inside append() between the candle manager and calculate()): answers for the
+                # candles before it must not move
+                if not cfg.get("tf") and n >= 2:
+                    last = candles[-1]
+                    arrived = mk_candles([[secs(last.timestamp) + cfg["base_s"], last.close, last.close + 1.0,
+                                           max(last.close - 1.0, 0.01), last.close, 1]])
+                    grown = list(candles) + arrived
+                    for j in idxs:
+                        if freeze(call(grown, index=j)) != freeze(call(candles[: j + 1])):
+                            raise Violation("index-vs-truncated", fn_name, "newest-candle-not-calculated-yet",
+                                            {"i": j, "n": n + 1, "args": args})
+                    run.stats["reach:uncalculated_newest_candle_probes"] += 1
             if kind == "check":
                 # the wrapper: live column == ledger of truncated evaluations == batch column
                 name = amorph_name()
